@@ -185,7 +185,23 @@ def r14_3(repo: Repo) -> RuleResult:
                and any(isinstance(x, ast.Assign) and isinstance(x.targets[0], ast.Subscript) and norm(x.targets[0].slice) == "mask_index"
                        and norm(x.value) in ("0", "0.0") for s in n.body for x in ast.walk(s))]
         rets = [n for n in walk_no_nested(f.node) if isinstance(n, ast.Return)]
-        if hit and all(h.lineno < r.lineno for h in hit for r in rets):
+        # after the zeroing, a masked store of a non-zero constant must exclude the zeros (`(x > 0) * (x < 1)`)
+        overwrites = []
+        if hit:
+            for n in walk_no_nested(f.node):
+                if isinstance(n, ast.Assign) and isinstance(n.targets[0], ast.Subscript) and n.lineno > hit[0].lineno \
+                        and isinstance(n.value, ast.Constant) and n.value.value not in (0, 0.0):
+                    mask = n.targets[0].slice
+                    if any(isinstance(x, ast.Compare) for x in ast.walk(mask)):
+                        keeps_zero = any(isinstance(x, ast.Compare) and isinstance(x.ops[0], ast.Gt) and norm(x.comparators[0]) in ("0", "0.0")
+                                         for x in ast.walk(mask))
+                        if not keeps_zero:
+                            overwrites.append(n)
+        if overwrites:
+            rr.bad(f, "_WINDOW_FUNCTIONS[%r]" % k,
+                   "`%s` (line %d) also rewrites entries that are zero: the radius of the mask token, zeroed under nullify_mask, becomes %s again - "
+                   "the mask token gets a window and contributes" % (short(overwrites[0], 50), overwrites[0].lineno, norm(overwrites[0].value)), overwrites[0].lineno)
+        elif hit and all(h.lineno < r.lineno for h in hit for r in rets):
             rr.ok(f, "_WINDOW_FUNCTIONS[%r]" % k, "radius of the mask token set to zero", f.node.lineno)
         else:
             rr.bad(f, "_WINDOW_FUNCTIONS[%r]" % k, "the radius of the mask token is not zeroed under `mask_index is not None`", f.node.lineno)
